@@ -553,7 +553,9 @@ fn judge(
                 let runs = pred.expected_runs(proj).iter().flatten().any(|s| s == sid);
                 let blocked = pred.p1.blocked.contains(&si) || pred.p2.as_ref().map(|(p2, pr)| p2.step_index(sid).map(|i| pr.blocked.contains(&i)).unwrap_or(false)).unwrap_or(false);
                 let needs_run = runs || blocked;
-                let got_err = matches!(&out.result, InvResult::Error(e) if e.contains("unknown pool"));
+                // (an error that names the pool; its wording is n2's business)
+                let pool_name = proj.steps[si].pool.clone().unwrap_or_default();
+                let got_err = matches!(&out.result, InvResult::Error(e) if e.contains("unknown pool") || (!pool_name.is_empty() && e.contains(&pool_name) && e.to_lowercase().contains("pool")));
                 let in_closure = closure.contains(&si);
                 // Only decidable when nothing interferes: no faults and the step is reached.
                 if inv.faults.is_empty() && predicted_error.is_none() {
